@@ -100,6 +100,10 @@ def natural_matrix(ctx):
         # meshed device: the second run must screen with the new Lambda (reference from the values asked for)
         dict(dev="bar", screening=True, tol=1e-3, adaptive=False, dt_init=d6, current=4.0, field=0.5, solve_time=4 * d6 - d6 / 2, k=2,
              layer_edit=dict(lam=1.0)),
+        # history: xi != 1, a screening run, post-processing calls on its solution (field / vector potential at positions),
+        # then the observed screening run on the SAME device: cell areas must still be those of the triangulation
+        dict(dev="bar", xi=0.5, lam=1.0, d=0.1, screening=True, tol=1e-3, adaptive=False, dt_init=d6, current=4.0, field=0.5,
+             solve_time=4 * d6 - d6 / 2, k=2, seed=dict(solve_time=2 * d6 - d6 / 2), postprocess="unseeded"),
         # history: device translated in place AFTER meshing: the induced potential is evaluated at the moved edge midpoints
         dict(dev="ring", screening=True, tol=1e-3, adaptive=False, dt_init=d6, field=2.0, solve_time=4 * d6 - d6 / 2, k=2,
              translate=[7.0, -3.0]),
@@ -195,7 +199,10 @@ def _run(ctx):
         raise core.MachineryFailure("no screening run after an in-place layer edit")
     if not any(t["params"].get("translate") and t["stats"]["frames"] >= 2 and t["stats"]["max_screening_iterations"] >= 2 for t in ntraces):
         raise core.MachineryFailure("no screening run on a device translated in place after meshing")
-    seeded = [t for t in ntraces if t["params"].get("seed") is not None and not t["params"].get("screening")]
+    if not any(t["params"].get("postprocess") and t["params"].get("xi", 1.0) != 1.0 and t["stats"]["frames"] >= 2
+               and t["stats"]["max_screening_iterations"] >= 2 for t in ntraces):
+        raise core.MachineryFailure("no screening run after post-processing calls on a device with xi != 1")
+    seeded = [t for t in ntraces if t["params"].get("seed") is not None and not t["params"].get("screening") and not t["params"].get("postprocess")]
     if not any((t["stats"]["seed_max_induced"] or 0) > 0 and t["stats"]["frames"] >= 2 for t in seeded):
         raise core.MachineryFailure("no unscreened run seeded from a screened solution with a non-zero induced potential")
     if not (any(t["raised"] == "screening" for t in scr) and sum(t["stats"]["frames"] for t in scr) >= 8
